@@ -18,6 +18,13 @@ def final(env):
         live = [p.pid for p in env.pool._pool]
         if rec['kind'] == 'imap' and lost:
             sig = 'F5:imap-ordered-loss-unreported'
+        elif rec['kind'] == 'imap_unordered' and lost and len(
+                [n for n in rec['nexts'] if n[0] == 'err'] +
+                [x for x in getattr(h, '_items', ())
+                 if isinstance(x, tuple) and x and x[0] is False]) > len(lost):
+            # more failure items than lost parts: the same loss was reported
+            # again at later supervision rounds, the index ran past the length
+            sig = 'F37:imap-unordered-loss-reported-every-round'
         elif rec['kind'] == 'apply' and lost and h._accepted and \
                 h._worker_pid not in live and h._worker_lost is None:
             # accepted by a process that had already been reaped: nobody
